@@ -16,7 +16,8 @@ Python directly on the implementation (r.match on package objects built from the
 Streams: `query` (generated trees: category/package leaves with exact/glob/regex values, negation
 on the wrapper and on the value, other-attribute leaves, atoms, AlwaysBool, Negate, AND/OR/
 exactly-one/at-most-one groupings with negate), `shapes` (systematic two-level shapes around the
-candidate-pruning decisions), `bad` (malformed: non-restriction arguments -> TypeError).
+candidate-pruning decisions), `ladder` (every rung of the fast path: alternatives of 0/1/2 exact names
+with/without glob/regex/value-negated matchers on each side, on a fully populated repository), `bad` (malformed: non-restriction arguments -> TypeError).
 """
 
 import itertools
@@ -240,6 +241,96 @@ def shape_trees():
     return out
 
 
+FULL = [{c: {p: [1, 2, 3] for p in PKGS} for c in CATS}]   # every category x package name of the vocabulary
+
+
+def ladder_trees():
+    """the decision ladder of _fast_identify_candidates, rung by rung: the category side and the
+    package side are each a set of ALTERNATIVES (0/1/2 exact names, with or without a glob / regex /
+    value-negated matcher), combined as And(Or(cats), Or(pkgs)), as the Or of every And(cat_i, pkg_j)
+    and with a further other-attribute conjunct.  Asked of the fully populated repository FULL, so
+    every alternative has matches and a dropped alternative shows in the answer."""
+    def leaf(attr, v):
+        return ("leaf", attr, v, False)
+    sides = {
+        "category": [[], [("exact", "a", False)], [("exact", "a", False), ("exact", "ba", False)],
+                     [("glob", "b", True, False)], [("exact", "ab", True)], [("regex", "^b", False)],
+                     [("exact", "a", False), ("glob", "b", True, False)],
+                     [("exact", "a", False), ("exact", "ab", True)],
+                     [("exact", "a", False), ("regex", "^b", False)],
+                     [("exact", "a", False), ("exact", "b", False), ("glob", "a", False, False)]],
+        "package": [[], [("exact", "x", False)], [("exact", "x", False), ("exact", "yx", False)],
+                    [("glob", "y", True, False)], [("exact", "z", True)], [("regex", "y$", False)],
+                    [("exact", "x", False), ("glob", "y", True, False)],
+                    [("exact", "x", False), ("exact", "z", True)],
+                    [("exact", "x", False), ("regex", "y$", False)],
+                    [("exact", "x", False), ("exact", "z", False), ("glob", "y", False, False)]],
+    }
+    ver = ("leaf", "fullver", ("exact", "2", False), False)
+    out = []
+    for ca in sides["category"]:
+        for pa in sides["package"]:
+            if not ca and not pa:
+                continue
+            cl = [leaf("category", v) for v in ca]
+            pl_ = [leaf("package", v) for v in pa]
+            groups = [("node", "or", False, g) if len(g) > 1 else g[0] for g in (cl, pl_) if g]
+            out.append(("node", "and", False, groups))
+            out.append(("node", "and", False, groups + [ver]))
+            if cl and pl_ and len(cl) * len(pl_) > 1:
+                out.append(("node", "or", False, [("node", "and", False, [c, q]) for c in cl for q in pl_]))
+            if len(groups) == 2:
+                out.append(("node", "or", False, groups))
+    return out
+
+
+def flat_and(node):
+    """conjuncts of an un-negated AND with nested un-negated ANDs opened and atoms replaced by
+    their exact category/package leaves"""
+    out = []
+    for k in node[3]:
+        if k[0] == "node" and k[1] == "and" and not k[2]:
+            out.extend(flat_and(k))
+        elif k[0] == "atom":
+            mm = re.match(r"^[<>=~]*([^/]+)/(.+?)(-[0-9]+)?$", k[1])
+            out.append(("leaf", "category", ("exact", mm.group(1), False), False))
+            out.append(("leaf", "package", ("exact", mm.group(2), False), False))
+        else:
+            out.append(k)
+    return out
+
+
+def neighbours(t):
+    """trees around t: t itself, t with one grouping flipped and<->or, and t with the same-attribute
+    leaves of an AND gathered under an OR (turns a conjunct into an alternative)"""
+    out = [t]
+
+    def rebuild(node, path, fn):
+        if not path:
+            return fn(node)
+        kids = list(node[3])
+        kids[path[0]] = rebuild(kids[path[0]], path[1:], fn)
+        return ("node", node[1], node[2], kids)
+
+    def walk(node, path):
+        if node[0] != "node":
+            return
+        if node[1] in ("and", "or"):
+            out.append(rebuild(t, path, lambda n: ("node", "or" if n[1] == "and" else "and", n[2], n[3])))
+        if node[1] == "and":
+            flat = flat_and(node)
+            for attr in ("category", "package"):
+                same = [k for k in flat if k[0] == "leaf" and k[1] == attr]
+                if len(same) >= 2:
+                    other = [k for k in flat if not (k[0] == "leaf" and k[1] == attr)]
+                    out.append(rebuild(t, path, lambda n, same=same, other=other:
+                                       ("node", "and", n[2], other + [("node", "or", False, same)])))
+        for j, k in enumerate(node[3]):
+            walk(k, path + [j])
+    walk(t, [])
+    return out[:16]
+
+
 def has_leaf(t):
     if t[0] in ("leaf", "atom"):
         return True
@@ -369,7 +460,7 @@ def main(chk: Check):
             j = json.loads(f.read_text())
             descs.append(("corpus", j["repos"], _untuple(j["tree"])))
     shapes = shape_trees()
-    n_shapes = chk.n(400, len(shapes))
+    n_shapes = chk.n(300, len(shapes))
     if os.environ.get("VERIF_C08_CAP"):
         n_shapes = min(n_shapes, max(60, int(os.environ["VERIF_C08_CAP"])))
     if n_shapes < len(shapes):
@@ -378,7 +469,9 @@ def main(chk: Check):
              {"a": {"x": [2], "y": [1]}, "ba": {"x": [1]}}]
     for i, t in enumerate(shapes):
         descs.append(("shapes", fixed[: 1 + (i % 2)], t))
-    n_random = chk.n(600, 6000)
+    for t in ladder_trees():
+        descs.append(("ladder", FULL, t))
+    n_random = chk.n(450, 6000)
     if os.environ.get("VERIF_C08_CAP"):      # self-test aid: bound the escalated budget
         n_random = min(n_random, int(os.environ["VERIF_C08_CAP"]))
     for _ in range(n_random):
@@ -467,22 +560,29 @@ def main(chk: Check):
     # a model/implementation disagreement without a failing input so far: look for one around it,
     # asking the same restrictions of a repository holding every category/package combination
     if model_bad and not reported:
-        full = [{c: {p: [1, 2] for p in PKGS} for c in CATS}]
-        for i in model_bad[:25]:
-            try:
-                robj, _ = make_case(m, full, meta[i]["tree"])
-            except ValueError:
+        seen_trees = set()
+        for i in model_bad:
+            key = json.dumps(meta[i]["tree"])
+            if key in seen_trees:
                 continue
-            got = impl_call(lambda: sorted(key3(p) for p in m["SimpleTree"](
-                {c: {p: [str(v) for v in vs] for p, vs in ps.items()} for c, ps in full[0].items()}).itermatch(robj)),
-                kinds={"*": "raised"})
-            want = oracle(m, full, robj)[0]
-            if got != want:
-                reported = True
-                chk.violation("property", {"what": "plain query differs from the brute-force filter (found around a "
-                                                   "model/implementation disagreement)",
-                                           "input": {"repos": full, "tree": meta[i]["tree"]},
-                                           "got": got, "brute_force": want})
+            seen_trees.add(key)
+            for nt in neighbours(meta[i]["tree"]):
+                try:
+                    robj, _ = make_case(m, FULL, nt)
+                except ValueError:
+                    continue
+                got = run_impl(m, FULL, robj)
+                want_plain, want_unv = oracle(m, FULL, robj)
+                if got[1] != want_plain or got[2] != want_plain or got[3] != want_unv:
+                    reported = True
+                    chk.violation("property", {
+                        "what": "query differs from the brute-force filter of the fully populated repository "
+                                "(found around a model/implementation disagreement)",
+                        "input": {"repos": FULL, "tree": nt},
+                        "got": got[1] if got[1] != want_plain else (got[2] if got[2] != want_plain else got[3]),
+                        "brute_force": want_plain if got[3] == want_unv else want_unv})
+                    break
+            if reported or len(seen_trees) >= 60:
                 break
     for i in model_bad[:3]:
         chk.violation("correspondence",
